@@ -26,6 +26,7 @@ value the following next returns and changes nothing; defaulted ids are
 values handed out by the metamodel's generator during that call, never null,
 never seen before in the metamodel.
 '''
+import gc
 import itertools
 
 from mc import core, explorer
@@ -35,13 +36,35 @@ NONE_GENS = ['int']          # generator kinds of the creation cases that get ex
 RESEED_VALUE = 20240924
 RESEED_MAX = 2
 BUDGET_S = {'quick': 3600, 'thorough': 14400}
+# generator kinds whose class overrides next() (not only readfunc)
+NEXT_KINDS = ['nonnull', 'audited']
+NEXT_ROUTES = {'audited': ['m.new']}               # creation family: routes of a next()-overriding kind (default: every route)
+# creation after the last strong reference to the MetaModel object was dropped
+ORPHAN_K = {'quick': 2, 'thorough': 3}
+ORPHAN_GENS = ['int', 'recuuid', 'nonnull']
+ORPHAN_ROUTES = ['mc.new', 'mc()', 'inst.new']      # inst.new: xtuml.get_metaclass(<previous instance>).new(...)
+DROP_KINDS = ['int', 'default', 'audited']
+DROP_NEW = ['new K1', 'new K2', 'new K2 x Id2=y']
 ASSUMPTIONS = [
     'the first sentence of the statement is read literally: every non-referential attribute is given its default before the '
     'arguments are applied, so one generator value is consumed per non-referential unique_id attribute even when an explicit '
     'id overrides it; which of the consumed values lands on which defaulted id attribute is left open',
     'explicit ids supplied by the caller are chosen outside the range of every generator (collisions between caller-supplied '
     'and generated ids are the caller\'s business and outside the statement)',
-    'user-supplied generators are IdGenerator subclasses that only define readfunc and never produce a null value',
+    'user-supplied generators are IdGenerator subclasses that never hand out a null value: two that only define readfunc (Tens, '
+    'RecUUID) and two that override next() (and peek() where needed) on top of the inherited read-ahead slot: NonNull (readfunc '
+    'counts 0, 1, 2, ...; next() steps over the null id, so it hands out 1, 2, 3, ...) and Audited (a UUIDGenerator whose next() '
+    'records every value it hands out). "Comes from the metamodel\'s generator" is read as: is a value the generator\'s own '
+    'next() handed out, whatever the calling form (g.next(), next(g), iteration, creation); for Audited the value of a peek is only '
+    'compared with the following hand-out. The next()-overriding kinds run in the creation family with the first spelling only '
+    '(Audited: route m.new only) and in the plain and iteration history menus',
+    'dropping the metamodel: a program may keep only a metaclass or an instance (and the generator object) and no reference to the '
+    'MetaModel object (del + gc.collect()); creation through mc.new(...), mc(...) or xtuml.get_metaclass(inst).new(...) is then '
+    'still creation in that metamodel with that generator (creation family: attribute lists of length <= %d quick / %d thorough, '
+    'first spelling, generators %s; history menu drop: one drop per history, generators %s, the program calls g.next() after the '
+    'drop and next(g) before); the collection at the drop is a full gc.collect() over everything allocated since the metamodel '
+    'under test was built (older objects are exempted with gc.freeze() for speed)' %
+    (ORPHAN_K['quick'], ORPHAN_K['thorough'], ORPHAN_GENS, DROP_KINDS),
     'for the plain UUIDGenerator and the metamodel\'s default generator the sequence is unknown: ids are checked for being '
     'non-null, pairwise distinct, fresh, and consistent with a preceding peek; a recording subclass of UUIDGenerator makes '
     'the produced sequence observable and is checked exactly',
@@ -92,6 +115,25 @@ def limited(fn):
     return False, None
 
 
+# Dropping the metamodel is followed by a full garbage collection.  A full collection of a process that holds the whole check
+# costs milliseconds; gc.freeze() exempts everything allocated before the metamodel under test was built, so that the
+# collection at the drop only has to look at what was allocated since (the metamodel and everything hanging off it).
+_GC = {'marks': 0}
+
+
+def gc_mark():
+    gc.unfreeze()
+    _GC['marks'] += 1
+    if _GC['marks'] % 64 == 0:
+        gc.collect()           # (what earlier worlds left behind)
+    gc.freeze()
+
+
+def gc_drop():
+    gc.collect()
+    gc.unfreeze()
+
+
 def spell(ty, style):
     if style == 0:
         return ty.lower()
@@ -140,7 +182,38 @@ def user_classes():
                 v = self._n
                 self._n += 1
                 return v
-        _USER.update(mod=xtuml, Tens=Tens, RecUUID=RecUUID, ZeroBased=ZeroBased)
+
+        class NonNull(xtuml.IdGenerator):
+            '''user-supplied: readfunc counts 0, 1, 2, ...; next() steps over the null id, so 1, 2, 3, ... are handed out'''
+            def __init__(self):
+                self._n = -1
+                xtuml.IdGenerator.__init__(self)
+
+            def readfunc(self):
+                self._n += 1
+                return self._n
+
+            def peek(self):
+                v = xtuml.IdGenerator.peek(self)
+                return v if v else self._n + 1
+
+            def next(self):
+                v = xtuml.IdGenerator.next(self)
+                while not v:
+                    v = xtuml.IdGenerator.next(self)
+                return v
+
+        class Audited(xtuml.UUIDGenerator):
+            '''user-supplied: uuid generator whose next() records every value it hands out'''
+            def __init__(self):
+                self.issued = []
+                xtuml.UUIDGenerator.__init__(self)
+
+            def next(self):
+                v = xtuml.UUIDGenerator.next(self)
+                self.issued.append(v)
+                return v
+        _USER.update(mod=xtuml, Tens=Tens, RecUUID=RecUUID, ZeroBased=ZeroBased, NonNull=NonNull, Audited=Audited)
     return _USER
 
 
@@ -159,6 +232,10 @@ def make_metamodel(kind):
         m = xtuml.MetaModel(user_classes()['ZeroBased']())
     elif kind == 'recuuid':
         m = xtuml.MetaModel(user_classes()['RecUUID']())
+    elif kind == 'nonnull':
+        m = xtuml.MetaModel(user_classes()['NonNull']())
+    elif kind == 'audited':
+        m = xtuml.MetaModel(user_classes()['Audited']())
     else:
         raise ValueError(kind)
     return m, m.id_generator
@@ -177,11 +254,15 @@ class GenRef(object):
 
     @property
     def exact(self):
-        return self.kind in ('int', 'user', 'recuuid', 'zerobased')
+        return self.kind in ('int', 'user', 'recuuid', 'zerobased', 'nonnull', 'audited')
 
     def value_at(self, i):
-        if self.kind == 'int':
+        if self.kind in ('int', 'nonnull'):
             return i + 1
+        if self.kind == 'audited':
+            # what the generator's own next() handed out; known only once it was handed out
+            log = self.gen.issued
+            return log[i] if i < len(log) else MISSING
         if self.kind == 'user':
             return 10 * (i + 1)
         if self.kind == 'zerobased':
@@ -209,7 +290,7 @@ class GenRef(object):
     def peek(self, v):
         '''Judge the value a peek returned; -> list of (kind, message, expected)'''
         out = []
-        exp = self.value_at(self.pos)
+        exp = self.value_at(self.pos) if self.kind != 'audited' else None    # (audited: not handed out yet, unknown)
         if is_null_id(v) and self.kind != 'zerobased':
             out.append(('peek:null', 'peek returned the null id %r' % (v,), 'a non-null id'))
         elif self.pending is not None and v != self.pending:
@@ -267,7 +348,7 @@ class GenRef(object):
                                 '(values number %d..%d)' % (d, window, self.pos + 1, self.pos + len(window)), window))
                     break
                 last = max(last, window.index(d))
-        if not out and not self.exact and self.pending is not None and n_id_attrs and len(defaulted) == n_id_attrs \
+        if not out and (not self.exact or self.kind == 'audited') and self.pending is not None and n_id_attrs and len(defaulted) == n_id_attrs \
            and self.pending not in defaulted:
             out.append(('new:id-differs-from-peek', 'peek showed %r but the ids defaulted next are %r' %
                         (self.pending, defaulted), self.pending))
@@ -351,6 +432,9 @@ def schema_tasks(tier):
     if tier == 'thorough':
         for types in itertools.product(TYPES, repeat=4):
             tasks.append(('plain4', list(types), None))
+    for k in range(1, ORPHAN_K[tier] + 1):
+        for types in itertools.product(TYPES, repeat=k):
+            tasks.append(('orphan', list(types), None))
     kspecial = 2 if tier == 'quick' else 3
     for k in range(0, kspecial + 1):
         for types in itertools.product(TYPES, repeat=k):
@@ -371,10 +455,16 @@ def run_schema(sub, task):
     fam, types, special = task
     names = sub.seed % len(NAME_PALETTES)
     k = len(types)
+    drop = False
     if fam == 'plain4':
         styles = [(0,) * k, tuple((i + sub.seed) % 3 for i in range(k))]
         fam = 'plain'
         gens, routes = ['int', 'recuuid'], ROUTES[:1]
+    elif fam == 'orphan':
+        styles = [(0,) * k]
+        fam = 'plain'
+        drop = True
+        gens, routes = ORPHAN_GENS, ORPHAN_ROUTES
     elif fam == 'plain':
         styles = style_sets(k, sub.tier)
         gens, routes = GEN_KINDS_A, ROUTES
@@ -393,12 +483,19 @@ def run_schema(sub, task):
             for npos, kw in shapes(n):
                 # (the attribute of unknown type is omitted from the call, given positionally, or given by keyword:
                 #  creation must be rejected in every case)
-                for gen in gens:
+                # (generators whose class overrides next(): first spelling only)
+                more = NEXT_KINDS if task[0] == 'plain' and style == styles[0] else []
+                for gen in list(gens) + more:
                     for route in routes:
+                        if gen in NEXT_ROUTES and route not in NEXT_ROUTES[gen]:
+                            continue
                         case = dict(part='create', fam=fam, types=spelled, special=special, unknown=unknown,
                                     special_style=(k + len(kw)) % 3, npos=npos, kw=kw, gen=gen, route=route, names=names,
                                     nones=bool(gen in NONE_GENS and style == styles[0]))
+                        if drop:
+                            case['drop'] = True
                         run_creation(sub, case)
+    gc.unfreeze()
     return None
 
 
@@ -448,11 +545,15 @@ def call_args(case, attrs, inst_no, ref_id):
     return args, kwargs, explicit
 
 
-def create(m, mc, route, args, kwargs):
+def create(m, mc, route, args, kwargs, prev=None):
     if route == 'm.new':
         return m.new('K', *args, **kwargs)
     if route == 'mc.new':
         return mc.new(*args, **kwargs)
+    if route == 'inst.new':
+        # a sibling of the instance created before (the first one: through the metaclass)
+        import xtuml
+        return (mc if prev is None else xtuml.get_metaclass(prev)).new(*args, **kwargs)
     return mc(*args, **kwargs)
 
 
@@ -462,14 +563,17 @@ def run_creation(sub, case):
     if not ok:
         problems = [('hang', 'creation did not finish within %.0f s (three attempts)' % LIMIT_S, None, None)]
     for kind, msg, exp, obs in problems[:1]:
-        sub.violation('c19:' + kind, case, 'class K(%s), %s, generator %s, positional prefix %d, keywords %s: %s' %
-                      (', '.join('%s %s' % (a[0], a[1]) for a in layout(case)), case['route'], case['gen'],
+        sub.violation('c19:' + kind, case, 'class K(%s), %s%s, generator %s, positional prefix %d, keywords %s: %s' %
+                      (', '.join('%s %s' % (a[0], a[1]) for a in layout(case)), case['route'],
+                       ' after the last reference to the metamodel was dropped' if case.get('drop') else '', case['gen'],
                        case['npos'], case['kw'], msg), exp, obs, unit_test=unit_test_creation(case))
 
 
 def _creation(sub, case):
     import xtuml
     attrs = layout(case)
+    if case.get('drop'):
+        gc_mark()
     m, gen = make_metamodel(case['gen'])
     gref = GenRef(case['gen'], gen)
     problems = []
@@ -515,11 +619,19 @@ def _creation(sub, case):
         ref_id = t.Id
     else:
         mc = m.define_class('K', decl)
+    if case.get('drop'):
+        # the program keeps the metaclass (and the generator object), not the metamodel
+        m = None
+        gc_drop()
+        sub.count('orphan_cases')
+    if case['gen'] in NEXT_KINDS:
+        sub.count('next_override_cases')
     jattrs = [(a[0], a[2], a[3]) for a in attrs]
+    inst = None
     for inst_no in instance_numbers(case):
         args, kwargs, explicit = call_args(case, attrs, inst_no, ref_id)
         sub.count('news')
-        inst = create(m, mc, case['route'], args, kwargs)
+        inst = create(m, mc, case['route'], args, kwargs, inst)
         got = judge_instance(inst, jattrs, explicit, gref)
         problems += got
         sub.count('instances_judged')
@@ -535,6 +647,8 @@ def _creation(sub, case):
             sub.count('news')
             sub.count('clones')
             twin = (m if case['route'] == 'm.new' else mc).clone(inst)
+            if case.get('drop'):
+                sub.count('orphan_clones')
             got = judge_instance(twin, jattrs, values, gref)
             problems += [('clone:' + k.split(':', 1)[1], 'clone of the instance created by call number %d: %s' % (inst_no + 1, msg), e, o)
                          for k, msg, e, o in got]
@@ -550,22 +664,32 @@ def _creation(sub, case):
     return problems
 
 
+GEN_SRC = {'int': 'xtuml.IntegerGenerator()', 'uuid': 'xtuml.UUIDGenerator()', 'default': '',
+           'user': 'Tens()   # class Tens(xtuml.IdGenerator): _n = 0; readfunc: self._n += 10; return self._n',
+           'recuuid': 'RecUUID()   # UUIDGenerator subclass recording the values of readfunc',
+           'nonnull': 'NonNull()   # IdGenerator subclass: readfunc counts 0, 1, 2, ...; next() (overridden) steps over the null '
+                      'id; peek() shows the value next() will hand out (see user_classes in mc/props/c19.py)',
+           'audited': 'Audited()   # UUIDGenerator subclass whose next() (overridden) appends the value it hands out to '
+                      'self.issued; every defaulted id must be in g.issued'}
+
+
 def unit_test_creation(case):
     attrs = layout(case)
-    gen = {'int': 'xtuml.IntegerGenerator()', 'uuid': 'xtuml.UUIDGenerator()', 'default': '',
-           'user': 'Tens()   # class Tens(xtuml.IdGenerator): _n = 0; readfunc: self._n += 10; return self._n',
-           'recuuid': 'RecUUID()   # UUIDGenerator subclass recording the values of readfunc'}[case['gen']]
-    lines = ['import xtuml', 'm = xtuml.MetaModel(%s)' % gen]
+    gen = GEN_SRC[case['gen']]
+    lines = ['import gc', 'import xtuml', 'm = xtuml.MetaModel(%s)' % gen]
     if case['fam'] == 'ref':
         lines += ["m.define_class('T', [('Id', 'unique_id')])"]
     lines += ["mc = m.define_class('K', %r)" % ([(a[0], a[1]) for a in attrs],)]
     if case['fam'] == 'ref':
         lines += ["m.define_association(1, 'K', ['Ref'], True, True, '', 'T', ['Id'], False, True, '').formalize()",
                   "t = m.new('T')   # ref_id = t.Id"]
+    if case.get('drop'):
+        lines += ['del m; gc.collect()   # only the metaclass (and later the instances) are kept']
     for inst_no in instance_numbers(case):
         args, kwargs, _ = call_args(case, attrs, inst_no, 'ref_id' if case['fam'] == 'ref' else None)
         a = ', '.join([repr(x) for x in args] + ['%s=%r' % kv for kv in kwargs.items()]).replace("'ref_id'", 't.Id')
-        call = {'m.new': "m.new('K'%s)" % (', ' + a if a else ''), 'mc.new': 'mc.new(%s)' % a, 'mc()': 'mc(%s)' % a}[case['route']]
+        call = {'m.new': "m.new('K'%s)" % (', ' + a if a else ''), 'mc.new': 'mc.new(%s)' % a, 'mc()': 'mc(%s)' % a,
+                'inst.new': ('xtuml.get_metaclass(i%d).new(%s)' % (inst_no - 1, a)) if inst_no else 'mc.new(%s)' % a}[case['route']]
         lines.append('i%d = %s' % (inst_no, call))
         lines.append('print([(n, getattr(i%d, n)) for n in %r])' % (inst_no, [x[0] for x in attrs]))
         if inst_no >= 2:
@@ -644,6 +768,8 @@ class GenModel(explorer.Model):
 
     def build(self, hist):
         w = BWorld()
+        if self.menu == 'drop':
+            gc_mark()
         w.m, w.gen = make_metamodel(self.kind)
         w.mcs = dict((k, w.m.define_class(k, list(a))) for k, a in B_CLASSES)
         w.ref = GenRef(self.kind, w.gen)
@@ -654,6 +780,8 @@ class GenModel(explorer.Model):
         w.it = None                # the live iterator obtained with iter(g) (menu 'iter')
         w.it_taken = w.iters = 0
         w.reseeds = []             # number of values handed out when random was re-seeded (menu 'reseed')
+        w.dropped = False          # the reference to the MetaModel object was dropped (menu 'drop')
+        w.inst = {}                # menu 'drop': the last instance of each class
         for op in hist:
             self.step(w, op)
         return w
@@ -667,6 +795,16 @@ class GenModel(explorer.Model):
             if len(w.reseeds) < RESEED_MAX:
                 ops.append(['reseed', RESEED_VALUE])
             for name in RESEED_NEW:
+                cls = B_NEW[name][0]
+                if hi + sum(1 for _, t in dict(B_CLASSES)[cls] if t.upper() == 'UNIQUE_ID') <= self.cap:
+                    ops.append([name])
+            return ops
+        if self.menu == 'drop':
+            if hi + 1 <= self.cap:
+                ops.append(['next'] if w.dropped else ['pynext'])
+            if not w.dropped:
+                ops.append(['drop'])
+            for name in DROP_NEW:
                 cls = B_NEW[name][0]
                 if hi + sum(1 for _, t in dict(B_CLASSES)[cls] if t.upper() == 'UNIQUE_ID') <= self.cap:
                     ops.append([name])
@@ -710,6 +848,12 @@ class GenModel(explorer.Model):
             random.seed(op[1])
             w.reseeds.append(w.ref.pos + getattr(w.ref, 'slack', 0))
             return []
+        if name == 'drop':
+            # the program keeps the generator object, the metaclasses and its instances, not the metamodel
+            w.m = None
+            gc_drop()
+            w.dropped = True
+            return []
         if name == 'iter':
             w.it = iter(w.gen)
             w.it_taken = 0
@@ -741,7 +885,14 @@ class GenModel(explorer.Model):
                 args.append(v)
             else:
                 kwargs[decl[i][0]] = v
-        inst = w.m.new(cls, *args, **kwargs)
+        if w.dropped:
+            import xtuml
+            prev = w.inst.get(cls)
+            inst = (w.mcs[cls] if prev is None else xtuml.get_metaclass(prev)).new(*args, **kwargs)
+        else:
+            inst = w.m.new(cls, *args, **kwargs)
+        if self.menu == 'drop':
+            w.inst[cls] = inst
         w.made[cls] += 1
         return judge_instance(inst, [(n, t.upper(), 'plain') for n, t in decl], explicit, w.ref)
 
@@ -756,8 +907,16 @@ class GenModel(explorer.Model):
             ctx.count('iteration_steps')
         elif op[0] == 'reseed':
             ctx.count('reseeds')
+        elif op[0] == 'drop':
+            ctx.count('drops')
         else:
             ctx.count('news')
+            if w.dropped:
+                ctx.count('creations_after_drop')
+                if w.made[B_NEW[op[0]][0]] > 1:
+                    ctx.count('sibling_creations_after_drop')
+            if self.kind in NEXT_KINDS:
+                ctx.count('next_override_history_creations')
             if w.reseeds:
                 ctx.count('creations_after_reseed')
             if self.menu == 'iter' and (w.it_taken or any(h[0] in ITER_TAKE for h in hist)):
@@ -778,6 +937,8 @@ class GenModel(explorer.Model):
         proxy = getattr(w.gen, '_current', None) if self.kind in ('int', 'user') else None
         if self.menu == 'reseed':
             return (w.ref.pos, getattr(w.ref, 'slack', 0), w.ref.pending is not None, w.last, tuple(w.reseeds), proxy)
+        if self.menu == 'drop':
+            return (w.ref.pos, getattr(w.ref, 'slack', 0), w.ref.pending is not None, mask, w.last, w.dropped, proxy)
         if self.menu == 'iter':
             itstate = 0 if w.it is None else 2 if w.it_taken else 1
             return (w.ref.pos, getattr(w.ref, 'slack', 0), w.ref.pending is not None, itstate, w.iters, w.last,
@@ -785,24 +946,24 @@ class GenModel(explorer.Model):
         return (w.ref.pos, getattr(w.ref, 'slack', 0), w.ref.pending is not None, mask, w.last, bool(w.explicit), proxy)
 
 
-MENU_LABEL = {'plain': '', 'iter': 'iter-', 'reseed': 'reseed-'}
+MENU_LABEL = {'plain': '', 'iter': 'iter-', 'reseed': 'reseed-', 'drop': 'drop-'}
 
 
 def run_history(sub, task):
     kind, cap, menu = task
     res = explorer.bfs(sub, GenModel(kind, cap, menu), chunk=1 << 30, label='history-%s%s' % (MENU_LABEL[menu], kind))
+    gc.unfreeze()
     deepest = max(res['seen'].values(), key=len)
     return dict(generator=kind, cap=cap, menu=menu, states=res['states'], depth=res['depth'], closed=res['closed'],
                 deepest_history=[''.join(str(x) for x in o) for o in deepest])
 
 
 def unit_test_history(model, hist, op):
-    gen = {'int': 'xtuml.IntegerGenerator()', 'uuid': 'xtuml.UUIDGenerator()', 'default': '',
-           'user': 'Tens()   # class Tens(xtuml.IdGenerator): _n = 0; readfunc: self._n += 10; return self._n',
-           'recuuid': 'RecUUID()   # UUIDGenerator subclass recording the values of readfunc'}[model.kind]
-    lines = ['import itertools', 'import xtuml', 'm = xtuml.MetaModel(%s); g = m.id_generator' % gen]
+    gen = GEN_SRC[model.kind]
+    lines = ['import gc', 'import itertools', 'import xtuml', 'm = xtuml.MetaModel(%s); g = m.id_generator' % gen, 'mcs = {}; last = {}']
     for k, a in B_CLASSES:
-        lines.append('m.define_class(%r, %r)' % (k, a))
+        lines.append('mcs[%r] = m.define_class(%r, %r)' % (k, k, a))
+    dropped = [False]
     n = [0]
 
     def stmt(o):
@@ -814,6 +975,9 @@ def unit_test_history(model, hist, op):
             return 'print(next(g))'
         if o[0] == 'reseed':
             return 'import random; random.seed(%d)' % o[1]
+        if o[0] == 'drop':
+            dropped[0] = True
+            return 'del m; gc.collect()   # the program keeps g, the metaclasses and the last instance of each class'
         if o[0] == 'iter':
             return 'it = iter(g)'
         if o[0] == 'itnext':
@@ -830,7 +994,11 @@ def unit_test_history(model, hist, op):
         for i in sorted(how):
             n[0] += 1
             parts.append(repr(500000 + n[0]) if how[i] == 'pos' else '%s=%r' % (decl[i][0], 500000 + n[0]))
-        return 'i = m.new(%s); print([(n, getattr(i, n)) for n in %r])' % (', '.join([repr(cls)] + parts), [x[0] for x in decl])
+        if dropped[0]:
+            return ('i = (xtuml.get_metaclass(last[%r]) if %r in last else mcs[%r]).new(%s); last[%r] = i; '
+                    'print([(n, getattr(i, n)) for n in %r])' % (cls, cls, cls, ', '.join(parts), cls, [x[0] for x in decl]))
+        return 'i = m.new(%s); last[%r] = i; print([(n, getattr(i, n)) for n in %r])' % (', '.join([repr(cls)] + parts), cls,
+                                                                                        [x[0] for x in decl])
     for o in hist:
         lines.append(stmt(o))
     lines.append(stmt(op) + '   # <- failing step')
@@ -1102,7 +1270,12 @@ def run(ctx):
     cap = 6 if ctx.quick else 9
     total = 0
     # (one search per worker, each run in-process: the searches are small and independent)
-    htasks = [(kind, cap, menu) for menu in ('plain', 'iter', 'reseed') for kind in explorer.rotate(GEN_KINDS_B, ctx.seed)]
+    # (plus: generators whose class overrides next(), menus plain and iter; histories that drop the reference to the metamodel;
+    #  the large searches first)
+    cap_new = cap if ctx.quick else cap - 2          # counter cap of the searches added in round 6 (thorough: 7 instead of 9)
+    htasks = [(kind, cap_new if kind in NEXT_KINDS else cap, menu) for menu in ('plain', 'iter', 'reseed')
+              for kind in explorer.rotate(GEN_KINDS_B, ctx.seed) + (NEXT_KINDS if menu != 'reseed' else [])]
+    htasks += [(kind, cap_new, 'drop') for kind in DROP_KINDS]
     for res in ctx.pmap(run_history, htasks, chunk=1):
         total += res['states']
         label = 'history-%s%s' % (MENU_LABEL[res['menu']], res['generator'])
@@ -1142,6 +1315,13 @@ def run(ctx):
     ctx.require(ctx.n("reseeds") >= 500 and ctx.n('creations_after_reseed') >= 1000,
                 'too few histories that re-seed the random module (%d re-seeds, %d creations after one)' %
                 (ctx.n('reseeds'), ctx.n('creations_after_reseed')))
+    ctx.require(ctx.n('next_override_cases') >= 10000 and ctx.n('next_override_history_creations') >= 1000,
+                'too few creations with a generator whose class overrides next() (%d creation cases, %d in histories)' %
+                (ctx.n('next_override_cases'), ctx.n('next_override_history_creations')))
+    ctx.require(ctx.n('orphan_cases') >= 1000 and ctx.n('creations_after_drop') >= 500 and
+                ctx.n('sibling_creations_after_drop') >= 100,
+                'too few creations after the metamodel reference was dropped (%d creation cases, %d / %d in histories)' %
+                (ctx.n('orphan_cases'), ctx.n('creations_after_drop'), ctx.n('sibling_creations_after_drop')))
     ctx.require(ctx.n('none_values') >= 10000 and ctx.n('keyword_none_over_positional') >= 5000 and ctx.n('clones') >= 10000,
                 'too few explicit None values (%d; %d keyword None over a positional value; %d clones)' %
                 (ctx.n('none_values'), ctx.n('keyword_none_over_positional'), ctx.n('clones')))
@@ -1188,6 +1368,16 @@ def coverage(ctx):
                            clones=ctx.n('clones'), generators=NONE_GENS),
         reseed=dict(value=RESEED_VALUE, max_per_history=RESEED_MAX, reseeds=ctx.n('reseeds'),
                     creations_after_a_reseed=ctx.n('creations_after_reseed'), creations=RESEED_NEW),
+        next_overriding_generators=dict(kinds=NEXT_KINDS, creation_cases=ctx.n('next_override_cases'),
+                                        creations_in_histories=ctx.n('next_override_history_creations'),
+                                        history_menus=['plain', 'iter'], creation_routes_restricted=NEXT_ROUTES,
+                                        counter_cap=6 if ctx.quick else 7),
+        dropped_metamodel=dict(creation_cases=ctx.n('orphan_cases'), clones=ctx.n('orphan_clones'),
+                               attribute_lists='length <= %d' % ORPHAN_K[ctx.tier], generators=ORPHAN_GENS, routes=ORPHAN_ROUTES,
+                               history_generators=DROP_KINDS, history_creations=DROP_NEW, drops=ctx.n('drops'),
+                               counter_cap=6 if ctx.quick else 7,
+                               creations_after_drop=ctx.n('creations_after_drop'),
+                               sibling_creations_after_drop=ctx.n('sibling_creations_after_drop')),
         live_edit=dict(steps=ctx.n('live_edit_steps'), creations_after_an_edit=ctx.n('creations_after_live_edit'),
                        edits=D_EDITS, max_edits=D_MAX_EDITS, replacement_generators=D_SWAPS, max_replacements=D_MAX_SWAPS),
         bounds=dict(attribute_lists='length <= 3 over 5 core types%s' % ('' if ctx.quick else ' (length 4 with two spellings, '
